@@ -133,6 +133,11 @@ def catalogue():
          [S("epA"), S("epB"), S("epC"), K("ecdsa_p384"), S("epB"), K("ed25519"), S("epC"), K("ecdsa_p521"),
           S("epA"), S("epB"), S("epC")]),
         ("restart-in-between", two, i0, [S("epA"), K("ecdsa_p384"), R, S("epB"), R, S("epA")]),
+        # key and contacts edited together; the CA accepts the roll-over and refuses the contact update; restart:
+        # what the file says must be what the CA was told (the roll-over must have been saved on its own)
+        ("rollover-ok-contact-refused-then-restart", two, i0,
+         [S("epA"), S("epB"), {"do": "both", "contacts": b, "key": "ecdsa_p384"}, S("epA", "account:refuse"), R,
+          S("epA"), S("epB")]),
         ("rsa-and-back", two, i0, [S("epA"), S("epB"), K("rsa2048"), S("epB"), K("ecdsa_p256"), S("epA"), S("epB")]),
         ("both-forget", two, i0, [S("epA"), S("epB"), F("epA"), F("epB"), K("ed25519"), S("epB"), S("epA")]),
     ]
